@@ -5,6 +5,7 @@ import (
 	"sort"
 	"strings"
 	"sync"
+	"sync/atomic"
 	"time"
 
 	"github.com/nats-io/nats.go"
@@ -48,6 +49,7 @@ type Tracker struct {
 	Ref *RefStore
 
 	mu        sync.Mutex
+	Muted     atomic.Bool // the monitors are off (a tail of the run that the reference model does not cover)
 	cur       map[*nats.Subscription]*WriteRec
 	finalized []*WriteRec
 	Writes    []*WriteRec
@@ -98,6 +100,9 @@ func isPointSubject(subj string) (node, parent string, edge, ok bool) {
 
 // observe runs under the world lock.
 func (tr *Tracker) observe(ev nats.BusEvent) {
+	if tr.Muted.Load() {
+		return
+	}
 	switch ev.Kind {
 	case "dispatch":
 		if ev.Sub.ConnOf() != tr.in.StoreNc {
